@@ -228,6 +228,8 @@ func (in *Interp) reset(prefix []int) {
 	in.pendingConc = nil
 	in.strVecs = nil
 	in.pools = nil
+	in.raceOn, in.raceActor, in.raceCells = false, 0, nil
+	in.onces = nil
 	in.blobStrs = nil
 	in.blobByID = nil
 	in.hints = nil
